@@ -5,6 +5,8 @@ import itertools
 
 from oracles import gwl
 
+BIG = 1_000_000   # every symbolic volume / limit is bounded by 1e6 uL (the record format itself stops at 7158278 uL)
+
 GEO = {
     "p1x1": ("plate", 1, 1), "p2x2": ("plate", 2, 2), "p2x3": ("plate", 2, 3), "p3x2": ("plate", 3, 2), "p8x2": ("plate", 8, 2),
     "p4x2": ("plate", 4, 2), "p3x12": ("plate", 3, 12),
@@ -56,7 +58,7 @@ def make_labware(ctx, name, geo, *, filled=True, sym_limits=True, sym_volumes=Tr
         g = gwl.Geometry(name, 1, C, vrows=R)
     if sym_limits:
         vmin = ctx.real(f"{name}_min", 0)
-        vmax = ctx.real(f"{name}_max")
+        vmax = ctx.real(f"{name}_max", None, BIG)
         ctx.assume(vmax > vmin)
         lab.min_volume, lab.max_volume = vmin, vmax
     pre = {}
